@@ -158,7 +158,11 @@ impl<'a> Ctx<'a> {
         if j == 0 {
             let q = self.leap(from, v);
             let (joint, tol) = self.joint(&q);
-            self.max_joint_err = self.max_joint_err.max(tol);
+            // a leaf of NaN energy contributes exactly 0 to the statistic: it has no tolerance to add (its
+            // infinite "tolerance" used to switch the whole statistic check off for the transition)
+            if !joint.is_nan() {
+                self.max_joint_err = self.max_joint_err.max(tol);
+            }
             if self.ambiguous.is_none() && !self.exact {
                 if (self.logu - joint).abs() <= tol {
                     self.ambiguous = Some(format!("slice test: joint {joint} within {tol:e} of the slice level {}", self.logu));
